@@ -1149,6 +1149,12 @@ remote_dep_dequeue_nothread_progress(parsec_execution_stream_t* es,
     parsec_list_t temp_list;
     int ret = 0, how_many, position, executed_tasks = 0;
 
+    if( NULL == parsec_mpi_same_pos_items ) {
+        /* In a single process run the main thread progresses the communications, and
+         * parsec_taskpool_wait() can get here before the first parsec_context_wait()
+         * had a chance to set up the ordering structures used below. */
+        remote_dep_ce_reconfigure(context);
+    }
     PARSEC_OBJ_CONSTRUCT(&temp_list, parsec_list_t);
  check_pending_queues:
     if( cycles >= 0 )
